@@ -444,6 +444,9 @@ func (c *fnCtx) call(call *ast.CallExpr, next int) int {
 				return c.node("run", "", "", 0, next, 0, call)
 			}
 			if cls, ok := pkgFuncs[q]; ok {
+				if cls == "pure" {
+					c.notePure(q, "", "", call)
+				}
 				return c.primitive(cls, call, next)
 			}
 			if purePkgs[id.Name] {
@@ -471,6 +474,7 @@ func (c *fnCtx) call(call *ast.CallExpr, next int) int {
 			return c.node("restore", cls, "", 0, next, 0, call)
 		}
 		if pureMethods[m] {
+			c.notePure(m, c.x.text(f.X), rt, call)
 			return next
 		}
 		if fis := c.x.byMethod[m]; len(fis) == 1 && rt == "" {
@@ -499,6 +503,33 @@ func (c *fnCtx) call(call *ast.CallExpr, next int) int {
 		return next
 	}
 	return c.node("unknown", c.x.text(call.Fun), "", 0, next, 0, call)
+}
+
+// notePure records a call site that is dropped from the model as read-only (the trusted base of C20).
+func (c *fnCtx) notePure(name, recv, rt string, call *ast.CallExpr) {
+	src := c.x.src(call.Pos())
+	proc := ""
+	if c.p != nil && c.p.Name != "_scratch" {
+		proc = c.p.Name
+	}
+	for _, pc := range c.x.out.PureCalls {
+		if pc.Name == name && pc.Src == src {
+			if proc != "" {
+				for _, q := range pc.Procs {
+					if q == proc {
+						return
+					}
+				}
+				pc.Procs = append(pc.Procs, proc)
+			}
+			return
+		}
+	}
+	pc := &PureCall{Name: name, Recv: recv, RT: rt, Src: src}
+	if proc != "" {
+		pc.Procs = []string{proc}
+	}
+	c.x.out.PureCalls = append(c.x.out.PureCalls, pc)
 }
 
 func (c *fnCtx) primitive(cls string, at ast.Node, next int) int {
